@@ -4,7 +4,7 @@ import vlib
 
 TARGETS = ["Base/Num.vo", "Base/Corr.vo", "C16/Model.vo", "C16/Spec.vo", "C16/ProofsMax.vo", "C16/ProofsEM.vo",
            "C16/ProofsModel.vo", "C16/Corr.vo", "C16/ProofsCorr.vo", "C16/ModelHmm.vo", "C16/ProofsBW.vo",
-           "C16/ProofsBW2.vo", "C16/ProofsBW3.vo", "C16/ProofsClamp.vo", "C16/Corr2.vo", "C16/ModelVec.vo", "C16/Corr3.vo",
+           "C16/ProofsBW2.vo", "C16/ProofsBW3.vo", "C16/ProofsClamp.vo", "C16/Corr2.vo", "C16/ModelVec.vo", "C16/Corr3.vo", "C16/ProofsCorr3.vo", "C16/ProofsVec.vo",
            "C16/SpecTest.vo", "C16/Props.vo"]
 PROPS = ["C16/Props.v"]
 CORPUS = os.path.join(vlib.ROOT, "corpus/C16/corpus.jsonl")
@@ -14,15 +14,28 @@ PROPOSED = os.path.join(vlib.ROOT, "corpus/C16/known_findings_proposed.json")
 CORPUS3 = os.path.join(vlib.ROOT, "corpus/C16/corpus3.jsonl")
 VCLAMP_WITNESS = os.path.join(vlib.ROOT, "corpus/C16/vclamp_witness.json")
 KINDS3 = ("vnormal", "sid", "siid", "negbin", "logreg", "emnormal")
-PARTIAL = ("Theorems are over exact real arithmetic (Coq Reals) about the hand-written models coq/C16/Model.v / ModelHmm.v with ONE "
-           "worker thread; the step to binary64 is bounded per sampled case only (bit-exact replay of the normal estimator, 1e-9 "
-           "tolerance decided in Q for the log-scale families, the EM replay and the Baum-Welch replay; exp values through an "
-           "Interval-certified table; three quarters of the Baum-Welch cases evaluate the model in binary64 instead of 100-bit "
-           "rationals, relying on the (not machine-checked) error bound for + * / on non-negative numbers). Baum-Welch: no start / "
-           "final states, categorical emissions in the tie; ascent is proved for emission M-steps satisfying the stated component "
-           "hypothesis. Vector normal, scalarIid/scalarId products, negative binomial, logistic regression and the numeric "
-           "estimators are not modelled. The normal perturbation check is skipped for ill-conditioned data "
-           "(exact variance < 2^-20 E[x^2]) where E[x^2]-E[x]^2 cancels in binary64.")
+PARTIAL = ("Theorems are over exact real arithmetic (Coq Reals) about the hand-written models coq/C16/Model.v / ModelHmm.v / ModelVec.v "
+           "with ONE worker thread; the step to binary64 is bounded per sampled case only (bit-exact replay of the scalar and the "
+           "vector normal estimator, 1e-9 tolerance decided in Q for the log-scale families, the negative binomial closed form, "
+           "the EM replays and the Baum-Welch replay; exp values through an Interval-certified table; three quarters of the "
+           "Baum-Welch cases evaluate the model in binary64 instead of 100-bit rationals, relying on the (not machine-checked) "
+           "error bound for + * / on non-negative numbers). Baum-Welch: no start / final states, categorical emissions in the tie; "
+           "ascent is proved for emission M-steps satisfying the stated component hypothesis. Vector normal: the mean is proved "
+           "optimal for every dimension and every covariance, the covariance for dimension 1 and for diagonal covariances of every "
+           "dimension; the full-matrix statement is vector_normal_full_covariance_maximiser_partial (reduced to ln det(L S) <= tr(L S) - d, "
+           "not proved for general d) and is covered per case by the certified perturbation check (scalings and shears at Go's returned "
+           "parameters, skipped for ill-conditioned data and, because of finding F-VNORMAL-CLAMP, when the SigmaMin clamp is active in "
+           "dimension >= 2); the link between the list model vn_est at R and the index-form vmean / vcov is only shown on the witness of "
+           "the _refuted theorem; the Cholesky-based guards of the distribution constructor are not modelled (error outcomes are compared "
+           "with an exact positive-definiteness / determinant-underflow test); NormalSteinEstimator is a shrinkage estimator, not a "
+           "likelihood maximiser, and is not covered. scalarId / scalarIid: componentwise theorem over the model, tie through the scalar "
+           "component checks; scalarIid with log-weights is only exercised for vectors of dimension 1 (the weights are consumed per pooled "
+           "coordinate). Numeric estimators: NO theorem about the iteration (SAGA, Newton); logistic regression is tied by its own "
+           "observable only — Coq-Interval certifies that every component of the average log-likelihood gradient at Go's returned "
+           "(converged) theta is below 2^-20 — and scalarEstimator/numeric.go (NumericEstimator) is not exercised. EM with normal "
+           "components: single-step replay in 100-bit rationals from Go's hook state (argument of exp evaluated in binary64 and checked "
+           "against its exact value to 2^-40), unweighted data, plain MixtureEstimator. The normal perturbation checks are skipped for "
+           "ill-conditioned data (exact variance < 2^-20 E[x^2]) where E[x^2]-E[x]^2 cancels in binary64.")
 
 
 def findings():
@@ -136,7 +149,7 @@ def hunt(ctx, binary, bad):
 
 def run(ctx):
     ctx.cov["trusted_base"] = vlib.TRUSTED_BASE_COMMON + [
-        "Coq-Interval 4.x (`interval`) for the exp table entries and the ln(1 +- 2^-10) bounds",
+        "Coq-Interval 4.x (`interval`) for the exp table entries, the ln(1 +- 2^-10) bounds, 1/sqrt(2 pi) and the logistic-regression gradient certificates",
         "axioms: those of the Coq Reals library (see 'print_assumptions')"]
     ctx.cov["partial"] = PARTIAL
     ok, failures = vlib.proof_stage(ctx, TARGETS, PROPS)
